@@ -112,6 +112,20 @@ def run(ctx):
             ctx.ok("C05.R3", fl.key + " consults get_raw_cigar for the placeholder", "", fl.loc())
         else:
             ctx.violation("C05.R3", "C05.R3/lazy-cigar/" + fl.key, "the lazy RecordRef::cigar no longer resolves the CG-tag placeholder", fl.loc())
+    # one definition of aux-field framing on the read side: the CG lookup of the lazy view walks the aux data with the
+    # decoder's own tag/type/value/array readers (a private re-implementation of the value widths drifts: 'Z' is
+    # NUL-terminated, 'B' is counted)
+    fg = ctx.anchor("C05.R3", B + "record::data::get_raw_cigar")
+    if fg is not None:
+        called = {(c.get("f") or "").split("::")[-1] for k2, g in fb.fns.items() if k2.startswith(fg.key) for b, c in g.calls()
+                  if (c.get("f") or "").startswith("noodles_bam::record::data::field::")}
+        need = {"decode_tag", "decode_type", "decode_value", "decode_raw_array", "decode_subtype"}
+        if need <= called:
+            ctx.ok("C05.R3", fg.key + " walks the aux data with the shared field readers", str(sorted(called)), fg.loc())
+        else:
+            ctx.violation("C05.R3", "C05.R3/private-aux-framing/" + fg.key,
+                          "get_raw_cigar no longer advances over aux fields with the shared %s: a second definition of the value "
+                          "framing can drift from the decoder's and the lazy CIGAR silently falls back to the placeholder" % sorted(need - called), fg.loc())
     R.const_rule(ctx, "C05.R3", "overflow op count placeholder",
                  {"n": B + "record::codec::encoder::cigar::overflowing_write_cigar_op_count::OVERFLOWING_OP_COUNT"},
                  lambda v: (v["n"] == 2, "n_cigar_op = 2 (kSmN)"), "SAMv1 §4.2.2")
